@@ -243,7 +243,7 @@ func vC16JSONVariants(k *vKit, r *vRng, family string, text string) {
 		vC16B64.EncodeToString([]byte(`{"kid":"only"}`)), vC16B64.EncodeToString([]byte(`{"alg":"HS384","nonce":"pn"}`)), "@@"}
 	n := 4
 	if k.thorough() {
-		n = 10
+		n = 5
 	}
 	for i := 0; i < n; i++ {
 		c := clone()
